@@ -344,8 +344,7 @@ Verdict run_case(Choices& c, CaseLog& log)
             // and delivers one zero-length record with step count 0)
             bool killed_at_init = t.steps.size() == 1
                                   && t.steps[0]->step_count == 0
-                                  && t.steps[0]->length == 0
-                                  && t.steps[0]->pre.volume < 0;
+                                  && t.steps[0]->length == 0;
             for (size_t k = 0; k < t.steps.size() && !killed_at_init; ++k)
                 if (t.steps[k]->step_count != k + 1)
                     return log.fail("track " + std::to_string(tk.first)
